@@ -78,4 +78,12 @@ CHECKS["C10"] = {"text": "Proved on the model: at a project-wide absence step no
     "the step, and the deletion clause (remove_absence_time_list gives the absence-free result), are searched by the oracle; for the deletion clause one finding is recorded (FIFO rule, known_findings.json).",
     "note": COMMON_NOTE + " PARTIAL: deletion clause searched; KNOWN FINDING C10/f-fifo.",
     "technique": "Coq proof: phase characterisations + ghost-history log representation; oracle (incl. deletion vs absence-free run) + full-state correspondence"}
+CHECKS["C11"] = {"text": "Proved on the model: sort_task_list (9 rules), sort_worker_list (MW/SSP/VC/HSV, with and without target workplace; main workplace compared by value), "
+    "sort_facility_list (all four rule values, MW keeps the order) and sort_workplace_list (FSS/SSP) each return a permutation of the input that is sorted by the documented key and "
+    "stable on ties (generic theorems about the model's stable insertion sort for total preorders; lexicographic triples for resources, a missing HSV entry sorts last). The key functions and call "
+    "sites are tied to the code by evaluating the model's sort functions (vm_compute) on the orders the real functions return for arbitrary lists with ties, missing entries and "
+    "equal-but-distinct ID strings, and by the simulation correspondence under all rules. PARTIAL: the no-inversion clause of allocation is searched by the oracle, not proved. "
+    "CPython's sorted() is trusted to be a stable sort.",
+    "note": COMMON_NOTE + " PARTIAL: allocation no-inversion clause searched. Pure sort correspondence by generated cases files (no extraction).",
+    "technique": "Coq proof (stable insertion sort: permutation, sortedness, stability) + vm_compute correspondence on pure lists + oracle for allocation inversions"}
 NOT_APPLICABLE = {}
